@@ -160,13 +160,20 @@ Print Assumptions C10_no_loss_nonvacuous.
 
 (* ------------------------------------------------------------------ round 4: "longest" without reference to how the collector cuts the input *)
 
-(* the character classes of the lexer overlap in exactly three code points (U+1680, U+180E, U+FEFF are white space and name characters);
-   the additional symbols are neither *)
+(* the character classes of the lexer are disjoint: no name character is white space (since the repair of is_name_start_char: the name
+   characters are the ranges of the grammar LESS the white space, which takes U+1680, U+180E, U+FEFF out), the additional symbols are
+   neither; with the original ranges exactly those three code points were both *)
 Theorem C10_char_classes : forall c,
-  (is_name_part c = true -> is_ws c = true -> c = 5760%N \/ c = 6158%N \/ c = 65279%N) /\
-  (is_add_sym c = true -> is_ws c = false /\ is_name_part c = false).
+  (is_name_part c = true -> is_ws c = false) /\
+  (is_add_sym c = true -> is_ws c = false /\ is_name_part c = false) /\
+  is_name_part c = is_name_part_orig c && negb (is_ws c) /\
+  (is_name_part_orig c = true -> is_ws c = true -> c = 5760%N \/ c = 6158%N \/ c = 65279%N).
 Proof. exact char_classes. Qed.
 Print Assumptions C10_char_classes.
+
+Theorem C10_char_classes_orig_refuted : forallb (fun c => is_name_part_orig c && is_ws c) [5760; 6158; 65279]%N = true.
+Proof. exact overlap_witness_orig. Qed.
+Print Assumptions C10_char_classes_orig_refuted.
 
 (* every collected part is a word (a non-empty run of name characters that the next input character does not extend) or one additional
    symbol; where the collector stops the next character is neither a name character, nor an additional symbol, nor white space *)
@@ -177,12 +184,10 @@ Theorem C10_collect_shape : forall inp pos parts cps endpos,
 Proof. exact collect_shape. Qed.
 Print Assumptions C10_collect_shape.
 
-(* for EVERY input (the three code points of C10_char_classes included) the collected parts with the white space between them are a
-   `reading` of the input from pos on: every gap is white space and does not begin with a name character, every part is a word or one
-   additional symbol, a word behind a non-empty gap does not begin with white space, two words are separated by a non-empty gap, a word
-   is not followed by a name character; where the collector stops there is white space that does not begin with a name character and
-   then a character that cannot belong to a name.  (The three code points are name characters directly after a name character or a
-   symbol and white space after white space: that is how the five-state machine reads them.) *)
+(* for EVERY input the collected parts with the white space between them are a `reading` of the input from pos on: every gap is white
+   space, every part is a word (a run of name characters: no white space in it, C10_char_classes) or one additional symbol, two words
+   are separated by a non-empty gap, a word is not followed by a name character; where the collector stops there is white space and
+   then a character that cannot belong to a name *)
 Theorem C10_collect_reading : forall inp pos parts cps endpos,
   pos < length inp -> is_name_start (ch inp pos) = true -> collect inp pos = (parts, cps, endpos) ->
   exists gaps tail, layout inp pos parts gaps cps /\
@@ -192,11 +197,12 @@ Proof. exact collect_reading. Qed.
 Print Assumptions C10_collect_reading.
 
 (* longest match, stated on the input text, all inputs: let a name qs (words and additional symbols) be written at pos with any white
-   space gs in its gaps under the reading rule (`reading`: a gap does not begin with a name character and a word behind a gap does not
-   begin with white space -- both can only happen with U+1680, U+180E, U+FEFF) and be followed by R.  Then qs is the prefix of the
-   collected parts of that length, and if its normal form (Name::new, parts trimmed) is a scope key the token is the longest bound
-   prefix, has at least as many parts, and the lexer resumes at or after the end of the written name.  So no bound name written at pos
-   is longer than the token, whatever way it is cut.  No hypothesis on the characters of the input (before: none of the three code points) *)
+   space gs in its gaps (`reading`: gaps are white space, words are runs of name characters, a non-empty gap between two words) and be
+   followed by R.  Then qs is the prefix of the collected parts of that length, and if its normal form (Name::new) is a scope key the token
+   is the longest bound prefix, has at least as many parts, and the lexer resumes at or after the end of the written name.  So no bound name
+   written at pos is longer than the token, whatever way it is cut.  No hypothesis on the characters of the input and no caveat about how
+   U+1680, U+180E, U+FEFF are read (they are white space; before the repair of is_name_start_char the statement needed a rule with two
+   extra conditions, see the _orig_refuted witnesses below) *)
 Theorem C10_longest_written : forall keys inp pos parts cps endpos,
   pos < length inp -> is_name_start (ch inp pos) = true -> collect inp pos = (parts, cps, endpos) ->
   (match parts with p :: _ => str_eqb p str_item | [] => false end) = false ->
@@ -210,9 +216,8 @@ Theorem C10_longest_written : forall keys inp pos parts cps endpos,
 Proof. exact longest_written_any. Qed.
 Print Assumptions C10_longest_written.
 
-(* a written name without any of the three code points (canon: no name character in a gap, no white space character in a word) is
-   a reading: the statement of the previous rounds is a special case *)
-Theorem C10_canon_reading : forall R qs gs b, canon R b gs qs -> reading R b gs qs.
+(* the rule of the previous rounds (canon: no name character in a gap, no white space character in a word, said explicitly) is the same rule *)
+Theorem C10_canon_reading : forall R qs gs b, canon R b gs qs <-> reading R b gs qs.
 Proof. exact canon_reading. Qed.
 Print Assumptions C10_canon_reading.
 
@@ -226,46 +231,51 @@ Example C10_longest_written_nonvacuous :
 Proof. exact three_words_reading. Qed.
 Print Assumptions C10_longest_written_nonvacuous.
 
-(* the rule is met by texts with the three code points: `a<U+1680>  b` is the words `a<U+1680>`, `b` -- Name::new trims U+1680, the name is
-   `a b` and resolves; `a+<U+FEFF>b` is `a`, `+`, `<U+FEFF>b` and resolves to the name bound under these parts *)
+(* the three code points are white space like any other: `a<U+1680> b` and `a<U+180E>b` are the name `a b`, `a+<U+FEFF>b` is the name `a+b` *)
 Example C10_reading_nonvacuous :
-  reading [] false [[]; [32; 32]%N] [[97; 5760]%N; k_b] /\
-  name_new [[97; 5760]%N; k_b] = k_a_b /\
-  lex_all [k_a; k_b; k_a_b] [97; 5760; 32; 32; 98]%N = Some [KName k_a_b] /\
-  reading [] false [[]; []; []] [k_a; [43%N]; [65279; 98]%N] /\
-  lex_all [k_a; k_b; [97; 43; 65279; 98]%N] [97; 43; 65279; 98]%N = Some [KName [97; 43; 65279; 98]%N].
+  reading [] false [[]; [5760; 32]%N] [k_a; k_b] /\
+  lex_all [k_a; k_b; k_a_b] [97; 5760; 32; 98]%N = Some [KName k_a_b] /\
+  lex_all [k_a; k_b; k_a_b] [97; 6158; 98]%N = Some [KName k_a_b] /\
+  reading [] false [[]; []; [65279%N]] [k_a; [43%N]; k_b] /\
+  lex_all [k_a; k_b; k_a_plus_b] [97; 43; 65279; 98]%N = Some [KName k_a_plus_b].
 Proof. exact reading_witness. Qed.
 Print Assumptions C10_reading_nonvacuous.
 
-(* outside the rule "longest" fails when the code point is taken for white space.  A gap that begins with U+1680: `a<U+1680>b` is the
-   bound name `a b` with the white-space character U+1680 between its words, the token is the unbound word `a<U+1680>b`;
-   `a+<U+1680> b` is the bound name `a+b` with white space behind the symbol, the collector returns a, +, <U+1680>, b, the look-up text
-   is `a+ b` (the trimmed part still separates) and the lexer reads a, +, b -- while `a+ <U+1680>b` is the name `a+b`.
-   (Both run against the real parser in props/c10.py: null instead of the value of `a b`; a + b instead of the value of `a+b`.) *)
-Theorem C10_longest_written_gap_rule_refuted :
-  [97; 5760; 98]%N = weave [[]; [5760%N]] [k_a; k_b] /\ Forall all_ws [[]; [5760%N]] /\
+(* with the ORIGINAL character classes (collect_orig / lex_all_chars_orig: the same machine over is_name_part_orig) "longest" failed on
+   written names with one of the three code points in a gap.  `a<U+1680>b` is the bound name `a b` with the white-space character U+1680
+   between its words: the token was the unbound word `a<U+1680>b`, now it is `a b`.  `a+<U+1680> b` is the bound name `a+b` with white space
+   behind the symbol: the collector returned a, +, <U+1680>, b, the look-up text was `a+ b` (the trimmed part still separates) and the lexer
+   read a, +, b -- while `a+ <U+1680>b` was the name `a+b`; now both are `a+b`.
+   (Both run against the real parser in props/c10.py: the text must give the answer of the same text with blanks.) *)
+Theorem C10_longest_written_gap_rule_orig_refuted :
+  [97; 5760; 98]%N = weave [[]; [5760%N]] [k_a; k_b] /\ reading [] false [[]; [5760%N]] [k_a; k_b] /\
   mem (flatten_parts [k_a; k_b]) [k_a; k_b; k_a_b] = true /\
-  lex_name [k_a; k_b; k_a_b] false [97; 5760; 98]%N 0 = LName [97; 5760; 98]%N 3 /\
-  lex_all [k_a; k_b; k_a_b] [97; 5760; 98]%N = Some [KName [97; 5760; 98]%N] /\
-  [97; 43; 5760; 32; 98]%N = weave [[]; []; [5760; 32]%N] [k_a; [43%N]; k_b] /\ Forall all_ws [[]; []; [5760; 32]%N] /\
+  lex_name_chars_orig [k_a; k_b; k_a_b] false [97; 5760; 98]%N 0 = LName [97; 5760; 98]%N 3 /\
+  lex_all_chars_orig [k_a; k_b; k_a_b] [97; 5760; 98]%N = Some [KName [97; 5760; 98]%N] /\
+  lex_all [k_a; k_b; k_a_b] [97; 5760; 98]%N = Some [KName k_a_b] /\
+  [97; 43; 5760; 32; 98]%N = weave [[]; []; [5760; 32]%N] [k_a; [43%N]; k_b] /\ reading [] false [[]; []; [5760; 32]%N] [k_a; [43%N]; k_b] /\
   mem (flatten_parts [k_a; [43%N]; k_b]) [k_a; k_b; k_a_plus_b] = true /\
-  collect [97; 43; 5760; 32; 98]%N 0 = ([k_a; [43%N]; [5760%N]; k_b], [0; 1; 2; 4], 5) /\
+  collect_orig [97; 43; 5760; 32; 98]%N 0 = ([k_a; [43%N]; [5760%N]; k_b], [0; 1; 2; 4], 5) /\
   flatten_parts [k_a; [43%N]; [5760%N]; k_b] = [97; 43; 32; 98]%N /\
-  lex_all [k_a; k_b; k_a_plus_b] [97; 43; 5760; 32; 98]%N = Some [KName k_a; KSym 43; KName k_b] /\
-  lex_all [k_a; k_b; k_a_plus_b] [97; 43; 32; 5760; 98]%N = Some [KName k_a_plus_b].
+  lex_all_chars_orig [k_a; k_b; k_a_plus_b] [97; 43; 5760; 32; 98]%N = Some [KName k_a; KSym 43; KName k_b] /\
+  lex_all_chars_orig [k_a; k_b; k_a_plus_b] [97; 43; 32; 5760; 98]%N = Some [KName k_a_plus_b] /\
+  collect [97; 43; 5760; 32; 98]%N 0 = ([k_a; [43%N]; k_b], [0; 1; 4], 5) /\
+  lex_all [k_a; k_b; k_a_plus_b] [97; 43; 5760; 32; 98]%N = Some [KName k_a_plus_b].
 Proof. exact gap_rule_witness. Qed.
-Print Assumptions C10_longest_written_gap_rule_refuted.
+Print Assumptions C10_longest_written_gap_rule_orig_refuted.
 
-(* a word that begins with U+180E behind a blank: the name with the words `a`, `<U+180E>b` is bound (scope key `a <U+180E>b`) and written
-   with one blank between its words; the lexer reads the words a, b: such a name cannot be written in a text *)
-Theorem C10_longest_written_word_rule_refuted :
+(* a word that begins with U+180E behind a blank: with the original classes `<U+180E>b` was a word, the name with the words `a`, `<U+180E>b`
+   was bound (scope key `a <U+180E>b`) and written with one blank between its words; the lexer read the words a, b: such a name could not
+   be written in a text.  Now `<U+180E>b` is not a word *)
+Theorem C10_longest_written_word_rule_orig_refuted :
   name_new [k_a; [6158; 98]%N] = k_a_mvs_b /\
-  [97; 32; 6158; 98]%N = weave [[]; [32%N]] [k_a; [6158; 98]%N] /\ word [6158; 98]%N /\
+  [97; 32; 6158; 98]%N = weave [[]; [32%N]] [k_a; [6158; 98]%N] /\ forallb is_name_part_orig [6158; 98]%N = true /\
   mem (flatten_parts [k_a; [6158; 98]%N]) [k_a; k_a_mvs_b] = true /\
-  collect [97; 32; 6158; 98]%N 0 = ([k_a; k_b], [0; 3], 4) /\
-  lex_all [k_a; k_a_mvs_b] [97; 32; 6158; 98]%N = Some [KName k_a; KName k_b].
+  collect_orig [97; 32; 6158; 98]%N 0 = ([k_a; k_b], [0; 3], 4) /\
+  lex_all_chars_orig [k_a; k_a_mvs_b] [97; 32; 6158; 98]%N = Some [KName k_a; KName k_b] /\
+  forallb is_name_part [6158; 98]%N = false.
 Proof. exact word_rule_witness. Qed.
-Print Assumptions C10_longest_written_word_rule_refuted.
+Print Assumptions C10_longest_written_word_rule_orig_refuted.
 
 (* ------------------------------------------------------------------ Name::new trims its parts (str::trim, Unicode White_Space) *)
 
@@ -275,28 +285,29 @@ Theorem C10_name_new_trim : forall ps,
 Proof. exact name_new_trim_facts. Qed.
 Print Assumptions C10_name_new_trim.
 
-(* White_Space is part of the white space of the lexer; the lexer has three more (U+180E, U+200B, U+FEFF); of the name characters only
-   U+1680 has the property; an additional symbol has not *)
+(* White_Space is part of the white space of the lexer; the lexer has three more (U+180E, U+200B, U+FEFF); no name character has the
+   property (of the original ranges only U+1680 had it); an additional symbol has not *)
 Theorem C10_white_space_classes : forall c,
   (is_white_space c = true -> is_ws c = true) /\
   (is_ws c = true -> is_white_space c = false -> c = 6158%N \/ c = 8203%N \/ c = 65279%N) /\
-  (is_name_part c = true -> is_white_space c = true -> c = 5760%N) /\
+  (is_name_part c = true -> is_white_space c = false) /\
+  (is_name_part_orig c = true -> is_white_space c = true -> c = 5760%N) /\
   (is_add_sym c = true -> is_white_space c = false).
 Proof. exact white_space_classes. Qed.
 Print Assumptions C10_white_space_classes.
 
-(* what the trim does to the parts the collector returns, every input: it removes a run of U+1680 at each end of a part and nothing
-   else; on an input without U+1680 it is the identity and the name of every prefix is the joining loop over the parts as collected *)
+(* what the trim does to the parts the collector returns, every input: nothing (a word has no White_Space character): the name of every
+   prefix is the joining loop over the parts as collected *)
 Theorem C10_trim_collected : forall inp pos parts cps endpos,
   pos < length inp -> is_name_start (ch inp pos) = true -> collect inp pos = (parts, cps, endpos) ->
-  Forall (fun p => exists l r, p = l ++ trim p ++ r /\ Forall (fun c => c = 5760%N) l /\ Forall (fun c => c = 5760%N) r) parts /\
-  (Forall (fun c => c <> 5760%N) inp -> map trim parts = parts /\ forall k, name_new (firstn k parts) = name_join (firstn k parts)).
+  map trim parts = parts /\ forall k, name_new (firstn k parts) = name_join (firstn k parts).
 Proof. exact trim_collected. Qed.
 Print Assumptions C10_trim_collected.
 
 (* the unit test of feel/src/names.rs on the model ("   x   ", " y      \t", "  \n  z  \t  " is `x y z`; "x", "    +    ", "y" is `x+y`;
-   three empty parts are the empty name; From<&str> trims the text), and the trim on the overlapping code points: <U+1680> alone is
-   trimmed to an empty part that still separates (`a+ b`), `a<U+1680>` is `a`, U+180E and U+FEFF stay *)
+   three empty parts are the empty name; From<&str> trims the text), and the trim on parts that hold U+1680 / U+180E / U+FEFF (names built
+   outside the lexer; the original collector also returned such parts): <U+1680> alone is trimmed to an empty part that still separates
+   (`a+ b`), `a<U+1680>` is `a`, U+180E and U+FEFF stay *)
 Example C10_name_new_nonvacuous :
   (name_new [[32; 32; 32; 120; 32; 32; 32]; [32; 121; 32; 32; 32; 32; 32; 32; 9]; [32; 32; 10; 32; 32; 122; 32; 32; 9; 32; 32]]%N = [120; 32; 121; 32; 122]%N /\
    name_new [[120]; [32; 32; 32; 32; 43; 32; 32; 32; 32]; [121]]%N = [120; 43; 121]%N /\
@@ -309,12 +320,15 @@ Example C10_name_new_nonvacuous :
 Proof. exact name_new_witnesses. Qed.
 Print Assumptions C10_name_new_nonvacuous.
 
-(* what the overlap means: directly after a name character such a code point continues the word, after a blank it is white space *)
-Example C10_overlap_reading :
-  collect [97; 5760; 98]%N 0 = ([[97; 5760; 98]%N], [2], 3) /\
+(* what the overlap meant: with the original classes such a code point continued the word directly after a name character and was white
+   space after a blank; now it is white space in both places *)
+Theorem C10_overlap_reading_orig_refuted :
+  collect_orig [97; 5760; 98]%N 0 = ([[97; 5760; 98]%N], [2], 3) /\
+  collect_orig [97; 32; 5760; 98]%N 0 = ([[97%N]; [98%N]], [0; 3], 4) /\
+  collect [97; 5760; 98]%N 0 = ([[97%N]; [98%N]], [0; 2], 3) /\
   collect [97; 32; 5760; 98]%N 0 = ([[97%N]; [98%N]], [0; 3], 4).
 Proof. exact overlap_reading_witness. Qed.
-Print Assumptions C10_overlap_reading.
+Print Assumptions C10_overlap_reading_orig_refuted.
 
 (* C10_longest for both values of the for / some / every flag, and the two tweaks exactly: a candidate whose first part is `item` gives
    `item`; with the flag set and the keyword `in` as a part after the first one the token is the parts before `in`; in every other case
